@@ -22,13 +22,13 @@ CC = "qcongestion::congestion::CongestionController"
 
 def run(ctx):
     prog = ctx.prog
-    ctx.rule("R1", "authenticate before dispatch (C06-R1 re-evaluated)")
+    ctx.rule("R1", "authenticate before dispatch; one forged key-phase bit cannot rotate the keys twice (C06-R1 and C06-R4 re-evaluated)")
     ctx.rule("R2", "no panic from the wire to the task (C03 obligations re-evaluated)")
     ctx.rule("R3", "lock-order acyclicity between distinct lock classes; no Package::dump acquires the congestion-controller lock")
     # ---------------------------------------------------------------- R1 / R2 by reference
     import importlib
     from qlint import framework as fw
-    for pid, rid, keep in (("C06", "R1", lambda o: o.rule == "R1"), ("C03", "R2", lambda o: o.rule in ("R1", "R2", "R5"))):
+    for pid, rid, keep in (("C06", "R1", lambda o: o.rule in ("R1", "R4")), ("C03", "R2", lambda o: o.rule in ("R1", "R2", "R5"))):
         sub = fw.Ctx(pid, ctx.tier, ctx.seed, prog)
         importlib.import_module("rules." + pid).run(sub)
         n = 0
